@@ -21,6 +21,7 @@ pub struct Sentence {
     pub absent_opts: usize,
     pub empty_stars: usize,
     pub empty_alts: usize,
+    pub empty_alts_vec: usize,
 }
 
 pub fn sentences(g: &AstG, rng: &mut Rng, n: usize) -> Vec<Sentence> {
@@ -57,7 +58,7 @@ pub fn sentences(g: &AstG, rng: &mut Rng, n: usize) -> Vec<Sentence> {
         let unique = count == Some(1);
         let content: Vec<String> = toks.iter().filter(|t| g.terms[t.term].lit.is_none() && Some(t.term) != g.flag_term).map(|t| t.text.clone()).collect();
         let cspans: Vec<(usize, usize)> = toks.iter().zip(spans.iter()).filter(|(t, _)| g.terms[t.term].lit.is_none() && Some(t.term) != g.flag_term).map(|(_, s)| *s).collect();
-        out.push(Sentence { input, content, spans: cspans, unique, bools: ex.bools, absent_opts: ex.absent_opts, empty_stars: ex.empty_stars, empty_alts: ex.empty_alts });
+        out.push(Sentence { input, content, spans: cspans, unique, bools: ex.bools, absent_opts: ex.absent_opts, empty_stars: ex.empty_stars, empty_alts: ex.empty_alts, empty_alts_vec: ex.empty_alts_vec });
     }
     out
 }
@@ -120,6 +121,11 @@ pub fn emit(krate: &mut Crate, g: &AstG, sents: &[Sentence], rep: &mut Rep, grou
             rep.count("glr_skipped_out_of_scope", 1);
             continue;
         }
+        if !glr && ag.cyclic() {
+            // fence of the listed C15 finding lr-reduction-cycle-cyclic-grammar: such LR parsers may never return
+            rep.count("lr_skipped_cyclic_grammar_fence", 1);
+            continue;
+        }
         for loc in [false, true] {
             let m = format!("g{}", krate.modules.len());
             let spec = SetSpec { glr, builder: 0, loc_info: loc, ps: if glr { None } else { Some(true) }, ..Default::default() };
@@ -141,7 +147,7 @@ pub fn emit(krate: &mut Crate, g: &AstG, sents: &[Sentence], rep: &mut Rep, grou
                 expected: vec![],
                 info: json!({"grammar": text, "settings": spec.to_json(), "group": group,
                     "sentences": sents.iter().map(|s| json!({"input": s.input, "content": s.content, "spans": s.spans, "unique": s.unique, "bools": s.bools,
-                        "absent_opts": s.absent_opts, "empty_stars": s.empty_stars, "empty_alts": s.empty_alts})).collect::<Vec<_>>()}),
+                        "absent_opts": s.absent_opts, "empty_stars": s.empty_stars, "empty_alts": s.empty_alts, "empty_alts_vec": s.empty_alts_vec})).collect::<Vec<_>>()}),
             });
             rep.count("modules", 1);
         }
